@@ -4,10 +4,14 @@
 (*  Orient  sym ("ac" symmetric | "abc" triaxial); view angles theta, phi, *)
 (*          psi (degrees); jitter distributions jt, jp, js = [v, w]        *)
 (*          (values in degrees centred on zero, weights) for theta, phi,   *)
-(*          psi, jreq = the requested points and width per angle;          *)
+(*          psi, jreq = the requested points and width per angle; cutoff;  *)
+(*          sz = an optionally dispersed size: weights w, volume V and the *)
+(*          model's validity verdict per size point (one point: none);     *)
+(*          reffj, vj / reffm, vm = effective radius and volume reported   *)
+(*          with the jitter and for the single orientation;                *)
 (*          detector points qx[j], qy[j]; V = the particle volume;    *)
 (*          I2d[j] = the model's 2-D intensity (scale 1, background 0);    *)
-(*          pts[m][j] = for jitter mesh point m (lexicographic over        *)
+(*          pts[s][m][j] = for size point s and jitter mesh point m (lexicographic over *)
 (*          jt x jp x js) the particle-frame vector <<qa,qb,qc>> the       *)
 (*          harness used and F2 = the model's own particle-frame           *)
 (*          intensity Iqac / Iqabc there (called through an exported       *)
@@ -50,32 +54,45 @@ ApplyOrient(e) ==
     LET nt == Len(e.jt.v)  np == Len(e.jp.v)  ns == Len(e.js.v)
         nq == Len(e.qx)
         M == nt * np * ns
+        NS == Len(e.sz.w)                    \* points of the dispersed size (1: none)
         It(m) == ((m - 1) \div (np * ns)) + 1
         Ip(m) == (((m - 1) \div ns) % np) + 1
         Is(m) == ((m - 1) % ns) + 1
         W(m) == FMul(FMul(FMul(e.jt.w[It(m)], e.jp.w[Ip(m)]), e.js.w[Is(m)]), FAbs(FCos(Rad(e.jt.v[It(m)]))))
         R(m) == Rot(e.phi, e.theta, e.psi, e.jp.v[Ip(m)], e.jt.v[It(m)], e.js.v[Is(m)])
-        QOK(m, j) ==
+        QOK(s, m, j) ==
             LET p == ParticleQ(R(m), e.qx[j], e.qy[j])
-                g == e.pts[m][j].q
+                g == e.pts[s][m][j].q
                 qn == FSqrt(FAdd(FMul(e.qx[j], e.qx[j]), FMul(e.qy[j], e.qy[j])))
             IN IF e.sym = "abc" THEN NearQ(g[1], p[1], qn) /\ NearQ(g[2], p[2], qn) /\ NearQ(g[3], p[3], qn)
                ELSE NearQ(FSqrt(FAdd(FMul(g[1], g[1]), FMul(g[2], g[2]))),
                           FSqrt(FAdd(FMul(p[1], p[1]), FMul(p[2], p[2]))), qn) /\ NearQ(g[3], p[3], qn)
-        ws == [m \in 1..M |-> W(m)]
-        norm == FSum(ws)
-        expect == [j \in 1..nq |-> FDiv(FDot(ws, [m \in 1..M |-> e.pts[m][j].F2]), FMul(norm, e.V))]
+        \* mesh point (s, m) takes part when the model declares the size valid and its combined weight (the
+        \* |cos dtheta| factor included) exceeds the cutoff
+        WW(x) == LET s == ((x - 1) \div M) + 1  m == ((x - 1) % M) + 1
+                     w == FMul(e.sz.w[s], W(m))
+                 IN IF e.sz.valid[s] /\ FLt(e.cutoff, w) THEN w ELSE Z
+        ws == [x \in 1..(NS * M) |-> WW(x)]
+        vs == [x \in 1..(NS * M) |-> e.sz.V[((x - 1) \div M) + 1]]
+        norm == FDot(ws, vs)
+        \* (points that take no part may carry NaN: the model is not defined there)
+        expect == [j \in 1..nq |-> FDiv(FDot(ws, [x \in 1..(NS * M) |-> IF FEq(ws[x], Z) THEN Z
+                                                                        ELSE e.pts[((x - 1) \div M) + 1][((x - 1) % M) + 1][j].F2]), norm)]
+        nothing == \A x \in 1..(NS * M) : FEq(ws[x], Z)
     IN IF e.raised # "" THEN <<"raised", e.raised>>
        \* parameters the model itself declares invalid: no point qualifies, the result is the background (0)
-       ELSE IF ~e.valid THEN (IF FVecEq(e.I2d, FVecConst(nq, Z)) THEN <<>> ELSE <<"invalid-parameters-not-excluded", ToString(e.I2d)>>)
-       \* an empty jitter distribution is an empty mesh (C01): background
+       ELSE IF ~e.valid /\ NS = 1 THEN (IF FVecEq(e.I2d, FVecConst(nq, Z)) THEN <<>> ELSE <<"invalid-parameters-not-excluded", ToString(e.I2d)>>)
        ELSE IF ~(JitterOK(e.jt, e.jreq.theta) /\ JitterOK(e.jp, e.jreq.phi) /\ JitterOK(e.js, e.jreq.psi)) THEN
             <<"jitter-mesh-not-about-zero", ToString(<<e.jt.v, e.jp.v, e.js.v, e.jreq>>)>>
-       ELSE IF M = 0 THEN (IF FVecEq(e.I2d, FVecConst(nq, Z)) THEN <<>> ELSE <<"empty-jitter-mesh-not-background", ToString(e.I2d)>>)
-       ELSE IF Len(e.pts) # M THEN <<"harness-mesh-size", ToString(<<Len(e.pts), M>>)>>
-       ELSE IF \E m \in 1..M : \E j \in 1..nq : ~QOK(m, j) THEN
-            <<"harness-particle-frame-vector", ToString(CHOOSE x \in {<<m, j>> : m \in 1..M, j \in 1..nq} : ~QOK(x[1], x[2]))>>
+       \* an empty jitter distribution is an empty mesh (C01), as is a mesh whose every point is cut off: background
+       ELSE IF M = 0 \/ nothing THEN (IF FVecEq(e.I2d, FVecConst(nq, Z)) THEN <<>> ELSE <<"empty-jitter-mesh-not-background", ToString(e.I2d)>>)
+       ELSE IF Len(e.pts) # NS \/ \E s \in 1..NS : Len(e.pts[s]) # M THEN <<"harness-mesh-size", ToString(<<Len(e.pts), NS, M>>)>>
+       ELSE IF \E s \in 1..NS, m \in 1..M : \E j \in 1..nq : ~QOK(s, m, j) THEN
+            <<"harness-particle-frame-vector", ToString(CHOOSE x \in {<<s, m, j>> : s \in 1..NS, m \in 1..M, j \in 1..nq} : ~QOK(x[1], x[2], x[3]))>>
        ELSE IF ~FVecNear(e.I2d, expect, "1e-9", "1e-300") THEN <<"rotation-convention-or-jitter-average", ToString(<<"expected", expect, "got", e.I2d>>)>>
+       \* jitter turns the particle, it does not resize it: effective radius and volume as for the single orientation
+       ELSE IF e.valid /\ M > 0 /\ ~(FNear(e.reffj, e.reffm, "1e-12", "0.0") /\ FNear(e.vj, e.vm, "1e-12", "0.0")) THEN
+            <<"jitter-changes-radius-or-volume", ToString(<<"mode", e.ermode, "with jitter", e.reffj, e.vj, "single orientation", e.reffm, e.vm>>)>>
        ELSE <<>>
 
 ApplySame(e) == IF e.raised # "" THEN <<"raised", e.raised>>
